@@ -175,13 +175,14 @@ def run_check(pid, tier, seed, replay=None):
     if violations:
         cls, desc, robj = violations[0]
         path = os.path.join(core.ROOT, "replays", "%s-%s-%d.json" % (pid, tier, seed))
-        core.write_json(path, {"property": pid, "what": desc, "class": cls, "replay": robj,
-                               "further_violations": len(violations) - 1, "problems": cov["problems"]})
+        core.write_json(path, {"property": pid, "tier": tier, "seed": seed, "what": desc, "class": cls, "replay": robj,
+                               "further_violations": len(violations) - 1, "problems": cov["problems"],
+                               "how_to_replay": "./check %s --replay %s  (re-runs the check with this tier and seed: the harness regenerates the same cases, the failing one included)" % (pid, path)})
         log("VIOLATION property=%s replay=%s" % (pid, path))
         rc = 1
     elif problems:
         path = os.path.join(core.ROOT, "replays", "%s-%s-%d.json" % (pid, tier, seed))
-        core.write_json(path, {"property": pid,
+        core.write_json(path, {"property": pid, "tier": tier, "seed": seed,
                                "what": "the property is no longer shown to hold: " + "; ".join(p["what"] for p in problems),
                                "broken": problems, "first_mismatch": mismatches[0] if mismatches else None})
         log("VIOLATION property=%s replay=%s no-failing-input-found" % (pid, path))
